@@ -95,3 +95,59 @@ fn c16_advance_date_elects_a_single_rotator() {
         assert!(st.next_date.load(Ordering::SeqCst) == stored, "C16.advance_date.loser_changes_nothing");
     }
 }
+
+// ---------- Inner::prune_old_logs: the part after the directory listing is extracted from the real function on every run
+// (generator gen_prune_tail, appended below) and run over recording stand-ins: `fs::remove_file` notes which entry is
+// removed, `eprintln!` is a no-op, an entry is (id, creation time).
+vstatic!(REMOVED_MASK: core::sync::atomic::AtomicUsize = core::sync::atomic::AtomicUsize::new(0));
+vstatic!(REMOVE_CALLS: core::sync::atomic::AtomicUsize = core::sync::atomic::AtomicUsize::new(0));
+pub(crate) struct VPath(u8);
+impl VPath { fn display(&self) -> u8 { self.0 } }
+pub(crate) struct VEntry { id: u8 }
+impl VEntry { fn path(&self) -> VPath { VPath(self.id) } }
+mod fs {
+    pub(crate) fn remove_file(p: super::VPath) -> std::io::Result<()> {
+        use core::sync::atomic::Ordering::SeqCst;
+        super::REMOVE_CALLS.fetch_add(1, SeqCst);
+        super::REMOVED_MASK.fetch_or(1usize << p.0, SeqCst);
+        Ok(())
+    }
+}
+macro_rules! eprintln { ($($t:tt)*) => { { } }; }
+/// the listing: a Vec whose `sort_by_key` is a plain stable insertion sort (contract of std's sort_by_key, which CBMC
+/// does not get through even for 3 elements)
+pub(crate) struct VFiles(Vec<(VEntry, u64)>);
+impl core::ops::Deref for VFiles { type Target = [(VEntry, u64)]; fn deref(&self) -> &Self::Target { &self.0 } }
+impl core::ops::DerefMut for VFiles { fn deref_mut(&mut self) -> &mut Self::Target { &mut self.0 } }
+impl VFiles {
+    // every other slice method (len, iter, first, ...) comes through Deref; only the sort is replaced
+    fn sort_by_key<K: Ord, F: FnMut(&(VEntry, u64)) -> K>(&mut self, mut f: F) {
+        let n = self.0.len(); let mut i = 1;
+        while i < n { let mut j = i; while j > 0 && f(&self.0[j - 1]) > f(&self.0[j]) { self.0.swap(j - 1, j); j -= 1; } i += 1; }
+    }
+}
+// BOUND: directories of up to 4 of the appender's files, any creation times, file limit 1..=4
+#[kani::proof]
+#[kani::unwind(7)]
+#[kani::stub(core::fmt::Formatter::pad, pad_stub)]
+fn c16_prune_leaves_limit_minus_one_newest_bounded() {
+    use core::sync::atomic::Ordering::SeqCst;
+    let n: usize = nd(); kani::assume(n <= 4);
+    let max_files: usize = nd(); kani::assume(max_files >= 1 && max_files <= 4);
+    let c8: [u8; 4] = nd(); let created: [u64; 4] = [c8[0] as u64, c8[1] as u64, c8[2] as u64, c8[3] as u64];
+    let mut files: Vec<(VEntry, u64)> = Vec::with_capacity(4);
+    let mut i = 0; while i < n { files.push((VEntry { id: i as u8 }, created[i])); i += 1; }
+    __extracted_prune_tail(VFiles(files), max_files);
+    let mask = REMOVED_MASK.load(SeqCst); let calls = REMOVE_CALLS.load(SeqCst);
+    // how many must go so that max_files - 1 remain before the new file is created
+    let want = if n < max_files { 0 } else { n - (max_files - 1) };
+    let mut removed = 0; let mut i = 0; while i < 4 { if mask & (1 << i) != 0 { removed += 1; } i += 1; }
+    assert!(calls == want && removed == want, "C16.prune.every_rotation_leaves_at_most_limit_minus_one_old_files_each_removed_once");
+    // oldest first: nothing that stays is older than something that went
+    let mut i = 0;
+    while i < n { let mut j = 0; while j < n {
+        if mask & (1 << i) != 0 && mask & (1 << j) == 0 { assert!(created[i] <= created[j], "C16.prune.removes_the_oldest_first"); }
+        j += 1; } i += 1; }
+    assert!(mask >> n == 0, "C16.prune.removes_only_listed_files");
+    kani::cover!(n == 4 && max_files == 2, "C16.reachable.backlog_larger_than_the_limit");
+}
